@@ -49,8 +49,42 @@ type runOut struct {
 	exSteps int64
 }
 
+// poisonSrc are templates that fail half-way through a capturing construct, a block, an include or at
+// parse time. poison renders them on a throw-away environment before a case is run with the library:
+// the library may keep no state from one execution to the next, so this must not change any result.
+// (Anything pooled, cached or memoised at package level would carry their partial output over.)
+var poisonSrc = map[string]string{
+	"p1":   "a{% set x %}LEFTOVER-set{{ nosuchfn() }}{% endset %}b",
+	"p2":   "{% filter upper %}LEFTOVER-filter{{ nosuchfn() }}{% endfilter %}",
+	"p3":   "{% macro m(a) %}LEFTOVER-macro{{ nosuchfn() }}{% endmacro %}{{ _self.m(1) }}",
+	"p4":   "{% block b %}LEFTOVER-b{{ block('c') }}{% endblock %}{% block c %}LEFTOVER-c{{ nosuchfn() }}{% endblock %}",
+	"p5":   "{% extends 'pbase' %}{% block b %}LEFTOVER-child{{ parent() }}{% endblock %}",
+	"p6":   "{% for v in [1, 2] %}LEFTOVER-loop{% include 'pinc' %}{% endfor %}",
+	"p7":   "{% embed 'pbase' %}{% block b %}LEFTOVER-embed{{ nosuchfn() }}{% endblock %}{% endembed %}",
+	"p8":   "LEFTOVER-parse{% if %}",
+	"p9":   "{% set v = 'LEFTOVER-value' %}{% set w %}{{ v }}{{ 1 % 0 }}{% endset %}",
+	"pinc": "LEFTOVER-inc{{ nosuchfn() }}",
+	"pbase": "[{% block b %}LEFTOVER-base{{ nosuchfn() }}{% endblock %}]",
+}
+
+var poisonNames = []string{"p1", "p2", "p3", "p4", "p5", "p6", "p7", "p8", "p9"}
+
+func poison() {
+	env := stick.New(&stick.MemoryLoader{Templates: poisonSrc})
+	for _, n := range poisonNames {
+		func() {
+			defer func() { recover() }()
+			var buf bytes.Buffer
+			env.Execute(n, &buf, map[string]stick.Value{"v": "LEFTOVER-ctx"})
+		}()
+	}
+}
+
 // runLib renders the program with the real library (core environment, recording callbacks).
 func runLib(p *Program, pol gen.Policy, twigEnv bool) (o runOut) {
+	mon.BeginExec()
+	poison()
+	mon.EndCall()
 	src := p.sources(pol)
 	var env *stick.Env
 	var rec *mon.Recorder
